@@ -299,10 +299,7 @@ func (w *ammWorld) step() {
 		if rng.Chance(1, 30) {
 			wb = int64(10001 + rng.Intn(10))
 		}
-		w.tx(fmt.Sprintf("rm %s %s %d", u, sym, wb), "rm", func(ctx sdk.Context) (string, error) {
-			_, err := w.srv.RemoveLiquidity(sdk.WrapSDKContext(ctx), &clptypes.MsgRemoveLiquidity{Signer: u.String(), ExternalAsset: asset(sym), WBasisPoints: sdk.NewInt(wb), Asymmetry: sdk.ZeroInt()})
-			return "", err
-		})
+		w.opRm(u, sym, wb)
 	case c < 50: // remove by units
 		units := big.NewInt(1)
 		if lp, err := w.app.ClpKeeper.GetLiquidityProvider(w.ctx, sym, u.String()); err == nil {
@@ -311,10 +308,7 @@ func (w *ammWorld) step() {
 				units = lp.LiquidityProviderUnits.BigInt()
 			}
 		}
-		w.tx(fmt.Sprintf("rmu %s %s %s", u, sym, units), "rmu", func(ctx sdk.Context) (string, error) {
-			_, err := w.srv.RemoveLiquidityUnits(sdk.WrapSDKContext(ctx), &clptypes.MsgRemoveLiquidityUnits{Signer: u.String(), ExternalAsset: asset(sym), WithdrawUnits: uintOf(units)})
-			return "", err
-		})
+		w.opRmu(u, sym, units)
 	case c < 75: // swap, three routes
 		var sent, recv string
 		switch rng.Intn(3) {
@@ -477,11 +471,70 @@ func (w *ammWorld) opAdd(u sdk.AccAddress, sym string, n, e *big.Int) {
 	})
 }
 
+// removalProbe records what a removal burned and paid, for Spec.C01.payoutOK.
+type removalProbe struct {
+	w            *ammWorld
+	u            sdk.AccAddress
+	sym          string
+	P, nD, eD    *big.Int
+	units        *big.Int
+	bn, be       *big.Int
+	ok           bool
+}
+
+func (w *ammWorld) probeRemoval(u sdk.AccAddress, sym string) *removalProbe {
+	pr := &removalProbe{w: w, u: u, sym: sym}
+	p := w.pool(sym)
+	lp, err := w.app.ClpKeeper.GetLiquidityProvider(w.ctx, sym, u.String())
+	if p == nil || err != nil {
+		return pr
+	}
+	nD, eD := p.ExtractDebt(p.NativeAssetBalance, p.ExternalAssetBalance, false)
+	pr.P, pr.nD, pr.eD = p.PoolUnits.BigInt(), nD.BigInt(), eD.BigInt()
+	pr.units = lp.LiquidityProviderUnits.BigInt()
+	pr.bn = w.app.BankKeeper.GetBalance(w.ctx, u, "rowan").Amount.BigInt()
+	pr.be = w.app.BankKeeper.GetBalance(w.ctx, u, sym).Amount.BigInt()
+	pr.ok = true
+	return pr
+}
+
+func (pr *removalProbe) emit(class string) {
+	if !pr.ok {
+		return
+	}
+	w := pr.w
+	left := big.NewInt(0)
+	if lp, err := w.app.ClpKeeper.GetLiquidityProvider(w.ctx, pr.sym, pr.u.String()); err == nil {
+		left = lp.LiquidityProviderUnits.BigInt()
+	}
+	n2 := new(big.Int).Sub(w.app.BankKeeper.GetBalance(w.ctx, pr.u, "rowan").Amount.BigInt(), pr.bn)
+	e2 := new(big.Int).Sub(w.app.BankKeeper.GetBalance(w.ctx, pr.u, pr.sym).Amount.BigInt(), pr.be)
+	burned := new(big.Int).Sub(pr.units, left)
+	if n2.Sign() == 0 && e2.Sign() == 0 && burned.Sign() == 0 {
+		return // the removal was refused
+	}
+	if burned.Sign() < 0 || n2.Sign() < 0 || e2.Sign() < 0 {
+		burned, n2, e2 = big.NewInt(0), new(big.Int).Abs(n2), new(big.Int).Abs(e2) // cannot happen; judged false below
+	}
+	w.out.Emit(fmt.Sprintf("chk c02.payout tag=%s.payout %s %s %s %s %s %s", class, pr.P, pr.nD, pr.eD, burned, n2, e2), "true", "chk.payout", false)
+}
+
 func (w *ammWorld) opRmu(u sdk.AccAddress, sym string, units *big.Int) {
+	pr := w.probeRemoval(u, sym)
 	w.tx(fmt.Sprintf("rmu %s %s %s", u, sym, units), "rmu", func(ctx sdk.Context) (string, error) {
 		_, err := w.srv.RemoveLiquidityUnits(sdk.WrapSDKContext(ctx), &clptypes.MsgRemoveLiquidityUnits{Signer: u.String(), ExternalAsset: asset(sym), WithdrawUnits: uintOf(units)})
 		return "", err
 	})
+	pr.emit("rmu")
+}
+
+func (w *ammWorld) opRm(u sdk.AccAddress, sym string, wb int64) {
+	pr := w.probeRemoval(u, sym)
+	w.tx(fmt.Sprintf("rm %s %s %d", u, sym, wb), "rm", func(ctx sdk.Context) (string, error) {
+		_, err := w.srv.RemoveLiquidity(sdk.WrapSDKContext(ctx), &clptypes.MsgRemoveLiquidity{Signer: u.String(), ExternalAsset: asset(sym), WBasisPoints: sdk.NewInt(wb), Asymmetry: sdk.ZeroInt()})
+		return "", err
+	})
+	pr.emit("rm")
 }
 
 func (w *ammWorld) opBucket(u sdk.AccAddress, d string, amt *big.Int) {
@@ -514,6 +567,36 @@ func (w *ammWorld) opSwap(u sdk.AccAddress, sent, recv string, amt, minR *big.In
 		class = "swap.double"
 	}
 	var settle string
+	// depths before the swap and the fee rate configured for the sold token, for Spec.C03.swapBoundOK
+	bound := ""
+	{
+		depth := func(sym string) (n, e *big.Int, ok bool) {
+			p := w.pool(sym)
+			if p == nil {
+				return nil, nil, false
+			}
+			nD, eD := p.ExtractDebt(p.NativeAssetBalance, p.ExternalAssetBalance, false)
+			return nD.BigInt(), eD.BigInt(), true
+		}
+		rr := w.app.ClpKeeper.GetPmtpRateParams(w.ctx).PmtpCurrentRunningRate.BigInt()
+		ff := w.app.ClpKeeper.GetSwapFeeRate(w.ctx, *asset(sent), false).BigInt()
+		switch {
+		case sent == "rowan":
+			if n, e, ok := depth(recv); ok {
+				bound = fmt.Sprintf("0 0 %s %s 0 0 %s %s %s", n, e, amt, rr, ff)
+			}
+		case recv == "rowan":
+			if n, e, ok := depth(sent); ok {
+				bound = fmt.Sprintf("0 1 %s %s 0 0 %s %s %s", e, n, amt, rr, ff)
+			}
+		default:
+			n1, e1, ok1 := depth(sent)
+			n2, e2, ok2 := depth(recv)
+			if ok1 && ok2 {
+				bound = fmt.Sprintf("1 0 %s %s %s %s %s %s %s", e1, n1, n2, e2, amt, rr, ff)
+			}
+		}
+	}
 	w.tx(fmt.Sprintf("swap %s %s %s %s %s", u, sent, recv, amt, minR), class, func(ctx sdk.Context) (string, error) {
 		snap := w.bankSnapshot(ctx)
 		before := w.app.BankKeeper.GetBalance(ctx, u, recv).Amount
@@ -535,11 +618,17 @@ func (w *ammWorld) opSwap(u sdk.AccAddress, sent, recv string, amt, minR *big.In
 			}
 		}
 		settle = fmt.Sprintf("chk c03.settle tag=%s.settle %s %s %s %s %s %s%s", class, u, sent, recv, amt, minR, y, sb.String())
+		if bound != "" {
+			bound = fmt.Sprintf("chk c03.bound tag=%s.bound %s %s", class, bound, y)
+		}
 		return y, nil
 	})
 	if settle != "" {
 		// the implementation's own balance changes, judged by Spec.C03.settleOK
 		w.out.Emit(settle, "true", "chk.settle", false)
+		if strings.HasPrefix(bound, "chk") {
+			w.out.Emit(bound, "true", "chk.bound", false)
+		}
 	}
 }
 
